@@ -184,6 +184,37 @@ def gen_case(spec):
     return r
 
 
+def spelling_case(job):
+    """Constants whose pseudo-op ARGUMENT TEXT coincides although they are different kinds of literal (method "S" vs byte "S", a template
+    name used as int and as bytes, an enum name vs the same text as bytes, an address vs its text as a string), and equal values under
+    different spellings: every load site of the assembled program still pushes what its own pseudo-op form denotes."""
+    order, repeat, version = job
+    from vf.core import use_repo
+    use_repo()
+    import pyteal as pt
+    from spec import avm
+    out = {"job": list(job), "problems": []}
+    try:
+        sig = "transfer(uint64,address)void"
+        addr = "WSJHNPJ6YCLX5K4GUMQ4ISPK3ABMS3AL3F6CSVQTCUI5F4I65PWEMCWT3M"
+        items = [lambda: pt.Len(pt.MethodSignature(sig)), lambda: pt.Len(pt.Bytes(sig)), lambda: pt.Len(pt.Addr(addr)), lambda: pt.Len(pt.Bytes(addr)),
+                 lambda: pt.Len(pt.Bytes("pay")), lambda: pt.TxnType.Payment, lambda: pt.Len(pt.Bytes("NoOp")), lambda: pt.OnComplete.NoOp,
+                 lambda: pt.Len(pt.Bytes("base16", "61")), lambda: pt.Len(pt.Bytes("a")), lambda: pt.Len(pt.Bytes("base64", "YQ==")), lambda: pt.Len(pt.Bytes("0x61")),
+                 lambda: pt.Tmpl.Int("TMPL_A"), lambda: pt.Len(pt.Tmpl.Bytes("TMPL_B")), lambda: pt.Len(pt.Bytes("TMPL_A")), lambda: pt.Int(1), lambda: pt.Len(pt.Bytes("1"))]
+        idx = list(range(len(items)))
+        random.Random(order).shuffle(idx)
+        body = []
+        for k in idx:
+            for _ in range(repeat):
+                body.append(pt.Pop(items[k]()))
+        prog = pt.Seq(*body, pt.Approve())
+        t1 = pt.compileTeal(prog, pt.Mode.Application, version=version, assembleConstants=True)
+        out["problems"] += check_indices(t1)[:3]
+    except Exception as e:
+        out["problems"].append(f"exception {type(e).__name__}: {str(e)[:200]}")
+    return out
+
+
 def lean_lemma(report):
     """re-check the side lemma with the installed Lean (seconds); absent/failed Lean => the obligation is undecided, not a violation"""
     import subprocess
@@ -221,6 +252,12 @@ def run(report: Report, tier, seed):
     with ProcessPoolExecutor(max_workers=16) as ex:
         res = list(ex.map(gen_case, specs, chunksize=4))
         many = list(ex.map(many_constants_case, [(k, m, v) for k in ("ints", "bytes") for m in (3, 5, 6, 40, 130, 257, 300) for v in (3, 10)]))
+        spj = [(o, rep, v) for o in range(6 if tier == "quick" else 40) for rep in (1, 2, 3) for v in (3, 6, 10)]
+        spr = list(ex.map(spelling_case, spj, chunksize=4))
+    spbad = [r for r in spr if r["problems"]]
+    report.bounded.append(Bounded(function="createConstantBlocks on constants whose literal text or value coincides across literal kinds", contract="every load site pushes the value its own pseudo-op form denotes",
+                                  bound=f"17 literals (method / byte / addr / enum / template / int with coinciding texts, one value in four spellings) x {len(spj)} (order, repetition, version) settings",
+                                  cases=len(spr), distinct_nontrivial=len(spr), failures=len(spbad)))
     bad = [(s, r) for s, r in zip(specs, res) if [m for m in r["mismatches"] if m["kind"] in ("outcome", "asm")] or r["index_problems"]]
     mbad = [m for m in many if m["problems"]]
     report.bounded.append(Bounded(function="compileTeal(assembleConstants=True) vs False", contract="same behaviour; every intc/bytec/pushint/pushbytes site pushes the value its pseudo-op form denotes",
@@ -231,6 +268,8 @@ def run(report: Report, tier, seed):
     report.sample({"site": "intc 5 // 1005", "check": "intcblock[5] == 1005"})
 
     def search(fn, obs):
+        if spbad:
+            return {"input": {"spelling": spbad[0]["job"]}, "what": spbad[0]["problems"][0]}
         if mbad:
             m = mbad[0]
             return {"input": {"many": [m["kind"], m["n"], m["version"]]}, "what": m["problems"][0]}
@@ -241,7 +280,9 @@ def run(report: Report, tier, seed):
     report.settle_undecided(search)
     report.settle_refuted(search)
     if any(o.status == "refuted" for o in report.obs):
-        bad, mbad = bad[:0], mbad[:0]      # reported once, with the refuted obligation
+        bad, mbad, spbad = bad[:0], mbad[:0], spbad[:0]      # reported once, with the refuted obligation
+    for b in spbad[:2]:
+        report.violation(Violation(key=f"spelling:{b['job']}", what=f"coinciding literal texts {b['job']}: {b['problems'][0]}"[:400], replay={"kind": "spelling", "job": b["job"]}, confirmed_native=True))
     for s, r in bad[:2]:
         what = (r["index_problems"] or [m["what"] for m in r["mismatches"]])[0]
         report.violation(Violation(key=f"asm:{s['seed']}:{s['version']}", what=f"assembleConstants changes a value / behaviour: {what}"[:400],
@@ -260,10 +301,14 @@ def replay(data):
     r = data["replay"]
     nat = (r.get("native") or {}).get("input") if isinstance(r, dict) else None
     if nat:
-        r = {"kind": "many", "job": nat["many"]} if "many" in nat else {"kind": "generated", "spec": nat["spec"]}
+        r = {"kind": "many", "job": nat["many"]} if "many" in nat else ({"kind": "spelling", "job": nat["spelling"]} if "spelling" in nat else {"kind": "generated", "spec": nat["spec"]})
     if "kind" not in r:
         print("no concrete input; refuted:", [x["id"] for x in r.get("refuted", [])])
         return 1
+    if r["kind"] == "spelling":
+        out = spelling_case(tuple(r["job"]))
+        print(out["problems"][:3])
+        return 1 if out["problems"] else 0
     if r["kind"] == "many":
         out = many_constants_case(tuple(r["job"]))
         print(out["problems"][:3])
